@@ -14,7 +14,7 @@ inductive AllRel (R : α → β → Prop) : List α → List β → Prop
   | cons {a : α} {b : β} {as : List α} {bs : List β} : R a b → AllRel R as bs → AllRel R (a :: as) (b :: bs)
 
 /-- the resolved edge `e` is what the code reads off the edge element `c` -/
-def Resolves (num : String → Option Rat) (parseNat : String → Option Nat) (ws : WeightSpec) (otherKeys : List String)
+def Resolves (num : String → Option Rat) (parseNat : String → Option Nat) (ws : WeightSpec) (otherKeys : List OtherKey)
     (naming symmetrize : Bool) (nodeIds : List String) (c : Child) (e : REdge) : Prop :=
   endpoint naming nodeIds parseNat c.source = .ok e.source ∧
   endpoint naming nodeIds parseNat c.target = .ok e.target ∧
@@ -37,7 +37,7 @@ theorem vals_cons (n m : Nat) (k : Kind) (t : Nat × Nat × Rat) (ts : List (Nat
 
 /-- the triples filled by the edge loop carry, at every position, exactly the contributions of the resolved edges -/
 theorem triples_sound (num : String → Option Rat) (parseNat : String → Option Nat) (ws : WeightSpec)
-    (otherKeys : List String) (naming symmetrize : Bool) (nodeIds : List String) (n m : Nat) (k : Kind)
+    (otherKeys : List OtherKey) (naming symmetrize : Bool) (nodeIds : List String) (n m : Nat) (k : Kind)
     (cs : List Child) (ts : List (Nat × Nat × Rat))
     (h : triples num parseNat ws otherKeys naming symmetrize nodeIds cs = .ok ts) :
     ∃ res : List REdge,
@@ -85,5 +85,254 @@ theorem triples_sound (num : String → Option Rat) (parseNat : String → Optio
                 simp only [List.append_assoc]
               · simp only [hd, Bool.false_eq_true, false_and, if_false, List.append_nil]
                 rw [hvals]
+
+/-! ### from the model's functions to the clause-by-clause reading -/
+
+theorem zip_range_getElem? (l : List String) (x : String) (i : Nat)
+    (h : (x, i) ∈ l.zip (List.range l.length)) : l[i]? = some x := by
+  obtain ⟨k, hk, hget⟩ := List.mem_iff_getElem.mp h
+  simp only [List.getElem_zip, List.getElem_range, Prod.mk.injEq] at hget
+  have hkl : k < l.length := by
+    have := hk; simp only [List.length_zip, List.length_range, Nat.min_self] at this; exact this
+  rw [← hget.2, List.getElem?_eq_getElem hkl, hget.1]
+
+theorem endpoint_named (nodeIds : List String) (parseNat : String → Option Nat) (a : Option String) (i : Nat)
+    (h : endpoint true nodeIds parseNat a = .ok i) : ∃ s, a = some s ∧ nodeIds[i]? = some s := by
+  unfold endpoint at h
+  cases a with
+  | none => cases h
+  | some s =>
+    simp only [if_true] at h
+    cases hf : (nodeIds.zip (List.range nodeIds.length)).reverse.find? (fun p => decide (p.1 = s)) with
+    | none => rw [hf] at h; cases h
+    | some p =>
+      rw [hf] at h
+      simp only at h
+      cases h
+      have hp := List.find?_some hf
+      simp only [decide_eq_true_eq] at hp
+      have hm := List.mem_reverse.mp (List.mem_of_find?_eq_some hf)
+      exact ⟨s, rfl, by rw [← hp]; exact zip_range_getElem? nodeIds p.1 p.2 hm⟩
+
+theorem endpoint_canonical (nodeIds : List String) (parseNat : String → Option Nat) (a : Option String) (i : Nat)
+    (h : endpoint false nodeIds parseNat a = .ok i) :
+    ∃ s, a = some s ∧ parseNat (String.ofList (s.toList.drop 1)) = some i := by
+  unfold endpoint at h
+  cases a with
+  | none => cases h
+  | some s =>
+    simp only [Bool.false_eq_true, if_false] at h
+    cases hp : parseNat (String.ofList (s.toList.drop 1)) with
+    | none => rw [hp] at h; cases h
+    | some n => rw [hp] at h; simp only at h; cases h; exact ⟨s, rfl, hp⟩
+
+/-- the step of the fold of `edgeWeight` -/
+def weightStep (num : String → Option Rat) (ws : WeightSpec) (others : List OtherKey)
+    (acc : Except PyErr Rat) (d : String × String) : Except PyErr Rat :=
+  match acc with
+  | .error e => .error e
+  | .ok w =>
+    if some d.1 = ws.id then convert num ws.ptype d.2
+    else match otherData num others "edge" d.1 d.2 with
+      | .error e => .error e
+      | .ok _ => .ok w
+
+theorem edgeWeight_eq (num : String → Option Rat) (ws : WeightSpec) (others : List OtherKey) (c : Child) :
+    edgeWeight num ws others c = c.data.foldl (weightStep num ws others) (.ok ws.default) := rfl
+
+theorem foldl_weightStep_error (num : String → Option Rat) (ws : WeightSpec) (others : List OtherKey)
+    (l : List (String × String)) (e : PyErr) :
+    l.foldl (weightStep num ws others) (.error e) = .error e := by
+  induction l with
+  | nil => rfl
+  | cons d ds ih => simp only [List.foldl_cons, weightStep]; exact ih
+
+theorem foldl_weightStep_noweight (num : String → Option Rat) (ws : WeightSpec) (others : List OtherKey)
+    (l : List (String × String)) (w0 w : Rat) (hno : ∀ d ∈ l, some d.1 ≠ ws.id)
+    (h : l.foldl (weightStep num ws others) (.ok w0) = .ok w) : w = w0 := by
+  induction l with
+  | nil => simp only [List.foldl_nil] at h; cases h; rfl
+  | cons d ds ih =>
+    simp only [List.foldl_cons] at h
+    have hd : ¬ some d.1 = ws.id := hno d (by simp)
+    have hstep : weightStep num ws others (.ok w0) d =
+        match otherData num others "edge" d.1 d.2 with
+        | .error e => .error e
+        | .ok _ => .ok w0 := by
+      simp only [weightStep, hd, if_false]
+    rw [hstep] at h
+    cases ho : otherData num others "edge" d.1 d.2 with
+    | error e => rw [ho] at h; simp only at h; rw [foldl_weightStep_error] at h; cases h
+    | ok u => rw [ho] at h; simp only at h; exact ih (fun d' hd' => hno d' (List.mem_cons_of_mem _ hd')) h
+
+theorem foldl_weightStep_last (num : String → Option Rat) (ws : WeightSpec) (others : List OtherKey)
+    (pre post : List (String × String)) (k t : String) (w0 w : Rat)
+    (hk : some k = ws.id) (hno : ∀ d ∈ post, some d.1 ≠ ws.id)
+    (h : (pre ++ (k, t) :: post).foldl (weightStep num ws others) (.ok w0) = .ok w) :
+    convert num ws.ptype t = .ok w := by
+  rw [List.foldl_append, List.foldl_cons] at h
+  cases hp : pre.foldl (weightStep num ws others) (.ok w0) with
+  | error e =>
+    rw [hp] at h
+    simp only [weightStep] at h
+    rw [foldl_weightStep_error] at h
+    cases h
+  | ok w1 =>
+    rw [hp] at h
+    have hstep : weightStep num ws others (.ok w1) (k, t) = convert num ws.ptype t := by
+      simp only [weightStep, hk, if_true]
+    rw [hstep] at h
+    cases hc : convert num ws.ptype t with
+    | error e => rw [hc, foldl_weightStep_error] at h; cases h
+    | ok w2 =>
+      rw [hc] at h
+      rw [foldl_weightStep_noweight num ws others post w2 w hno h]
+
+/-- what the model's functions compute for an edge element is the clause-by-clause reading of the document -/
+theorem resolves_readsAs (num : String → Option Rat) (parseNat : String → Option Nat)
+    (doc : Doc) (ws : WeightSpec) (others : List OtherKey) (c : Child) (e : REdge)
+    (h : Resolves num parseNat ws others doc.naming doc.symmetrize doc.nodeIds c e) :
+    ReadsAs num parseNat doc.nodeids doc.edgedefault doc.nodeIds ws.id ws.ptype ws.default c e := by
+  obtain ⟨hs, ht, hw, hu⟩ := h
+  rw [edgeWeight_eq] at hw
+  refine ⟨?_, ?_, ?_, ?_, ?_, ?_, ?_⟩
+  · intro hn
+    have : doc.naming = true := by simp [Doc.naming, hn]
+    rw [this] at hs
+    exact endpoint_named _ _ _ _ hs
+  · intro hn
+    have : doc.naming = true := by simp [Doc.naming, hn]
+    rw [this] at ht
+    exact endpoint_named _ _ _ _ ht
+  · intro hn
+    have : doc.naming = false := by simp [Doc.naming, hn]
+    rw [this] at hs
+    exact endpoint_canonical _ _ _ _ hs
+  · intro hn
+    have : doc.naming = false := by simp [Doc.naming, hn]
+    rw [this] at ht
+    exact endpoint_canonical _ _ _ _ ht
+  · intro hno
+    exact foldl_weightStep_noweight num ws others c.data ws.default e.weight hno hw
+  · intro pre k t post hdata hk hno
+    rw [hdata] at hw
+    exact foldl_weightStep_last num ws others pre post k t ws.default e.weight hk hno hw
+  · rw [hu]
+    unfold duplicated Doc.symmetrize
+    cases hd : c.directed with
+    | none => simp
+    | some d => simp
+
+theorem AllRel.imp {R R' : α → β → Prop} {l₁ : List α} {l₂ : List β} (h : AllRel R l₁ l₂)
+    (himp : ∀ a b, R a b → R' a b) : AllRel R' l₁ l₂ := by
+  induction h with
+  | nil => exact AllRel.nil
+  | cons hab _ ih => exact AllRel.cons (himp _ _ hab) ih
+
+/-- without a weight key among the keys, the weights keep their initial description -/
+theorem scanKeys_no_weight (num : String → Option Rat) (weightKey : String) (keys : List Key)
+    (ws ws' : WeightSpec) (others others' : List OtherKey)
+    (hno : ∀ k ∈ keys, isWeightKey weightKey k = false)
+    (h : scanKeys num weightKey keys ws others = .ok (ws', others')) : ws' = ws := by
+  induction keys generalizing others with
+  | nil => unfold scanKeys at h; cases h; rfl
+  | cons k ks ih =>
+    unfold scanKeys at h
+    have hk := hno k (by simp)
+    split at h
+    · simp only [hk, Bool.false_eq_true, if_false] at h
+      split at h
+      · cases h
+      · split at h
+        · cases h
+        · split at h
+          · cases h
+          · exact ih _ (fun k' hk' => hno k' (List.mem_cons_of_mem _ hk')) h
+    · cases h
+
+/-! ### non-refusal -/
+
+theorem mem_zip_range (l : List String) (s : String) (h : s ∈ l) : ∃ i, (s, i) ∈ l.zip (List.range l.length) := by
+  obtain ⟨i, hi, hget⟩ := List.mem_iff_getElem.mp h
+  refine ⟨i, List.mem_iff_getElem.mpr ⟨i, by simpa using hi, ?_⟩⟩
+  simp [hget]
+
+theorem endpoint_ok (nodeIds : List String) (parseNat : String → Option Nat) (s : String) (h : s ∈ nodeIds) :
+    ∃ i, endpoint true nodeIds parseNat (some s) = .ok i ∧ i < nodeIds.length := by
+  unfold endpoint
+  simp only [if_true]
+  obtain ⟨i, hi⟩ := mem_zip_range nodeIds s h
+  cases hf : (nodeIds.zip (List.range nodeIds.length)).reverse.find? (fun p => decide (p.1 = s)) with
+  | none =>
+    rw [List.find?_eq_none] at hf
+    have := hf (s, i) (List.mem_reverse.mpr hi)
+    simp at this
+  | some p =>
+    refine ⟨p.2, rfl, ?_⟩
+    have hm := List.mem_reverse.mp (List.mem_of_find?_eq_some hf)
+    obtain ⟨k, hk, hget⟩ := List.mem_iff_getElem.mp hm
+    simp only [List.getElem_zip, List.getElem_range] at hget
+    have hkl : k < nodeIds.length := by
+      have := hk; simp only [List.length_zip, List.length_range, Nat.min_self] at this; exact this
+    rw [← hget]
+    exact hkl
+
+theorem foldl_weightStep_ok (num : String → Option Rat) (ws : WeightSpec) (others : List OtherKey)
+    (l : List (String × String)) (w0 : Rat)
+    (h : ∀ d ∈ l, some d.1 = ws.id ∧ ∃ w, convert num ws.ptype d.2 = .ok w) :
+    ∃ w, l.foldl (weightStep num ws others) (.ok w0) = .ok w := by
+  induction l generalizing w0 with
+  | nil => exact ⟨w0, rfl⟩
+  | cons d ds ih =>
+    simp only [List.foldl_cons]
+    obtain ⟨hid, w, hw⟩ := h d (by simp)
+    have : weightStep num ws others (.ok w0) d = .ok w := by
+      simp only [weightStep, hid, if_true, hw]
+    rw [this]
+    exact ih w (fun d' hd' => h d' (List.mem_cons_of_mem _ hd'))
+
+theorem edgeWeight_ok (num : String → Option Rat) (ws : WeightSpec) (others : List OtherKey) (c : Child)
+    (h : ∀ d ∈ c.data, some d.1 = ws.id ∧ ∃ w, convert num ws.ptype d.2 = .ok w) :
+    ∃ w, edgeWeight num ws others c = .ok w := by
+  rw [edgeWeight_eq]
+  exact foldl_weightStep_ok num ws others c.data ws.default h
+
+theorem triples_ok (num : String → Option Rat) (parseNat : String → Option Nat) (ws : WeightSpec)
+    (others : List OtherKey) (symmetrize : Bool) (nodeIds : List String) (cs : List Child)
+    (h : ∀ c ∈ cs, (∃ s ∈ nodeIds, c.source = some s) ∧ (∃ t ∈ nodeIds, c.target = some t) ∧
+        ∀ d ∈ c.data, some d.1 = ws.id ∧ ∃ w, convert num ws.ptype d.2 = .ok w) :
+    ∃ ts, triples num parseNat ws others true symmetrize nodeIds cs = .ok ts ∧
+      ∀ t ∈ ts, t.1 < nodeIds.length ∧ t.2.1 < nodeIds.length := by
+  induction cs with
+  | nil => exact ⟨[], rfl, by simp⟩
+  | cons c cs ih =>
+    obtain ⟨⟨s, hs, hcs⟩, ⟨t, ht, hct⟩, hdata⟩ := h c (by simp)
+    obtain ⟨i, hi, hil⟩ := endpoint_ok nodeIds parseNat s hs
+    obtain ⟨j, hj, hjl⟩ := endpoint_ok nodeIds parseNat t ht
+    obtain ⟨w, hw⟩ := edgeWeight_ok num ws others c hdata
+    obtain ⟨rest, hrest, hlt⟩ := ih (fun c' hc' => h c' (List.mem_cons_of_mem _ hc'))
+    unfold triples
+    rw [hcs, hct, hi, hj, hw, hrest]
+    refine ⟨_, rfl, ?_⟩
+    intro x hx
+    by_cases hd : duplicated symmetrize c = true
+    · simp only [hd, if_true, List.mem_cons] at hx
+      rcases hx with rfl | rfl | hx
+      · exact ⟨hil, hjl⟩
+      · exact ⟨hjl, hil⟩
+      · exact hlt x hx
+    · simp only [hd, List.mem_cons] at hx
+      rcases hx with rfl | hx
+      · exact ⟨hil, hjl⟩
+      · exact hlt x hx
+
+theorem nodesData_ok (num : String → Option Rat) (others : List OtherKey) (nodes : List Child)
+    (h : ∀ c ∈ nodes, c.data = []) : nodesData num others nodes = .ok () := by
+  unfold nodesData
+  induction nodes with
+  | nil => rfl
+  | cons c cs ih =>
+    simp only [List.foldl_cons, h c (by simp), List.foldl_nil]
+    exact ih (fun c' hc' => h c' (List.mem_cons_of_mem _ hc'))
 
 end SkNet.GraphML
